@@ -44,6 +44,9 @@ def main(argv=None):
 
     if a.replay:
         rep = json.load(open(a.replay))
+        if rep.get("kind") == "crash":
+            print("replay %s: records an interpreter crash during the check; re-run ./check %s" % (a.replay, prop_id))
+            return main([prop_id, "--tier", rep.get("tier", "quick")])
         if rep.get("kind") == "unproved":
             print("replay %s: records a broken proof obligation / correspondence (no failing input); re-run ./check %s" % (
                 a.replay, prop_id))
